@@ -8,6 +8,7 @@ answer.  Each premise is one rule; the predicates are read from the AST and comp
 specification over all weak orderings of their symbols (complete for comparison predicates).
 """
 import ast
+import itertools
 from ..core import AnalysisError, norm, dotted, calls_in, walk_no_nested, call_arg, parent, enclosing_stmt
 from ..order import Interp, Model, eval_function, Raised
 from ..flow import Flow, conjuncts, emptiness_test_kind, iteration_constructs
@@ -256,18 +257,52 @@ class TreeFacts:
         found = {}
         dflow = Flow(f)
         from ..flow import guard_chain
-        for call in sorted(calls_in(f.node, fname), key=lambda c_: (c_.lineno, c_.col_offset)):
-            st = enclosing_stmt(call)
-            chain = guard_chain(st)
+        descents = [(c_, enclosing_stmt(c_), None) for c_ in sorted(calls_in(f.node, fname), key=lambda c_: (c_.lineno, c_.col_offset))]
+        # iterative descent: `node = node.<child>` in tail position of a `while True` loop that scans the node
+        for st_ in walk_no_nested(f.node):
+            if isinstance(st_, ast.Assign) and len(st_.targets) == 1 and norm(st_.targets[0]) == nodep and isinstance(st_.value, ast.Attribute) \
+                    and norm(st_.value.value) == nodep:
+                cur_, loop_ = st_, None
+                while cur_ is not f.node:
+                    par_ = parent(cur_)
+                    if isinstance(par_, ast.While):
+                        loop_ = par_
+                        if cur_ is not par_.body[-1]:
+                            raise AnalysisError("%s: the node is replaced by its child before the end of the loop body" % fname)
+                        break
+                    blocks_ = [b_ for b_ in (getattr(par_, "body", None), getattr(par_, "orelse", None)) if isinstance(b_, list) and any(x is cur_ for x in b_)]
+                    if not isinstance(par_, ast.If) or not blocks_ or blocks_[0][-1] is not cur_:
+                        raise AnalysisError("%s: `%s` is not in tail position of a loop" % (fname, norm(st_)))
+                    cur_ = par_
+                if loop_ is None or not (isinstance(loop_.test, ast.Constant) and loop_.test.value is True):
+                    raise AnalysisError("%s: `%s` outside a `while True` loop" % (fname, norm(st_)))
+                if any(isinstance(n_, ast.Name) and n_.id == q and isinstance(n_.ctx, ast.Store) for n_ in ast.walk(f.node)):
+                    raise AnalysisError("%s: the query is reassigned in the iterative descent" % fname)
+                descents.append((None, st_, loop_))
+        for call, st, loop_ in descents:
+            orig = st
+            chain = guard_chain(st, stop=loop_)
             if not chain:
                 raise AnalysisError("%s: unguarded recursive call" % fname)
             # which child does the guard test for presence
             tested = None
             guard = []
+            presence = []
             for test_, pol_ in chain:
                 test_ = dflow.resolve(test_, at=test_, stop=(q, nodep))
                 if not pol_:
-                    guard.append(ast.UnaryOp(op=ast.Not(), operand=test_))
+                    # presence tests of the *other* child inside a negated guard are free booleans
+                    class _P(ast.NodeTransformer):
+                        def visit_Compare(self, n_):
+                            a_ = _is_not_none(n_)
+                            if a_ is not None and isinstance(a_, ast.Attribute) and norm(a_.value) == nodep:
+                                nm_ = "__present_%s" % a_.attr
+                                if nm_ not in presence:
+                                    presence.append(nm_)
+                                return ast.Name(id=nm_, ctx=ast.Load())
+                            return n_
+                    from ..core import clone as _clone
+                    guard.append(ast.UnaryOp(op=ast.Not(), operand=_P().visit(_clone(test_))))
                     continue
                 for cj in conjuncts(test_):
                     a = _is_not_none(cj)
@@ -277,10 +312,14 @@ class TreeFacts:
                         guard.append(cj)
             st = [n_ for n_, _ in [(parent(st), 0)] if isinstance(n_, ast.If)][0] if isinstance(parent(st), ast.If) else st
             # the child handed to the recursive call
-            bound = _bind_call(call, f)
+            if call is not None:
+                bound = _bind_call(call, f)
+            else:
+                bound = {nodep: orig.value, q: ast.Name(id=q, ctx=ast.Load())}
             passed = bound.get(nodep)
             passed_attr = passed.attr if (isinstance(passed, ast.Attribute) and isinstance(passed.value, ast.Name)
                                           and passed.value.id == nodep) else None
+            call = call if call is not None else st
             construct = "IntervalTree.%s[%s]" % (fname, tested or norm(chain[-1][0]))
             ctx.ob(construct + ".child", passed_attr is not None and passed_attr == tested and tested in child_masks,
                    "guard tests %s.%s, recursive call receives %s" % (nodep, tested, norm(passed) if passed is not None else None),
@@ -303,9 +342,10 @@ class TreeFacts:
                 syms = ["l", "r", "c", "q0", "q1"]
                 cons = lambda a: a["l"] <= a["r"] and a["q0"] <= a["q1"]
 
-                def gfn(a, gexpr=gexpr):
-                    return bool(Interp({q: (a["q0"], a["q1"]), "%s.%s" % (nodep, cp_attr): a["c"]},
-                                       {"interval_overlaps": self.OV, "interval_contains": self.IN}).ev(gexpr))
+                def gfn(a, gexpr=gexpr, presence=tuple(presence)):
+                    return all(bool(Interp(dict({q: (a["q0"], a["q1"]), "%s.%s" % (nodep, cp_attr): a["c"]}, **dict(zip(presence, pv))),
+                                           {"interval_overlaps": self.OV, "interval_contains": self.IN}).ev(gexpr))
+                               for pv in itertools.product((False, True), repeat=len(presence)))
 
                 def spec(a, mfn=mfn):
                     return mfn(a["l"], a["r"], a["c"]) and OVspec((a["l"], a["r"]), (a["q0"], a["q1"]))
@@ -313,9 +353,10 @@ class TreeFacts:
                 syms = ["l", "r", "c", "p"]
                 cons = lambda a: a["l"] <= a["r"]
 
-                def gfn(a, gexpr=gexpr):
-                    return bool(Interp({q: a["p"], "%s.%s" % (nodep, cp_attr): a["c"]},
-                                       {"interval_overlaps": self.OV, "interval_contains": self.IN}).ev(gexpr))
+                def gfn(a, gexpr=gexpr, presence=tuple(presence)):
+                    return all(bool(Interp(dict({q: a["p"], "%s.%s" % (nodep, cp_attr): a["c"]}, **dict(zip(presence, pv))),
+                                           {"interval_overlaps": self.OV, "interval_contains": self.IN}).ev(gexpr))
+                               for pv in itertools.product((False, True), repeat=len(presence)))
 
                 def spec(a, mfn=mfn):
                     return mfn(a["l"], a["r"], a["c"]) and INspec((a["l"], a["r"]), a["p"])
@@ -888,29 +929,89 @@ def rule_match(ctx):
         raise AnalysisError("find() result is not assigned to a name")
     L1, L2 = list_name(prim[0]), list_name(sec[0])
 
-    # widening of the search period: start -> start - mi, end -> end + mi
-    from ..algebra_lin import linear_form  # tiny linear extractor
+    # widening of the search period: start -> start - mi, end -> end + mi, saturating at the ends of the time axis
+    # (None stands for the end of the axis, like in find()).  Decided on a small bounded axis [0, N]: datetimes are
+    # points whose arithmetic raises outside the axis, max_interval is a difference.
+    N = 4
+
+    class _Crash(Exception):
+        pass
+
+    class DT:
+        def __init__(self, v):
+            self.v = v
+
+        def _mk(self, r):
+            if not 0 <= r <= N:
+                raise _Crash("OverflowError: date value out of range")
+            return DT(r)
+
+        def __sub__(self, o):
+            return self.v - o.v if isinstance(o, DT) else self._mk(self.v - o)
+
+        def __add__(self, o):
+            if isinstance(o, DT):
+                raise _Crash("TypeError: datetime + datetime")
+            return self._mk(self.v + o)
+        __radd__ = __add__
+
+        def __lt__(self, o):
+            return self.v < o.v
+
+        def __le__(self, o):
+            return self.v <= o.v
+
+        def __gt__(self, o):
+            return self.v > o.v
+
+        def __ge__(self, o):
+            return self.v >= o.v
+
+        def __eq__(self, o):
+            return isinstance(o, DT) and self.v == o.v
+
+        def __hash__(self):
+            return hash(self.v)
+
+    def _to_dt(x):
+        if x is None:
+            raise _Crash("to_datetime(None) is not a datetime")
+        return x
+    given, absent = {"%s is not None" % p_mi: True, "%s is None" % p_mi: False}, {"%s is not None" % p_mi: False, "%s is None" % p_mi: True}
     for c, who in ((prim[0], "primary"), (sec[0], "secondary")):
-        s = flow.resolve(c.args[0], at=c) if c.args else None
-        e = flow.resolve(c.args[1], at=c) if len(c.args) > 1 else None
-        ls = linear_form(s, {p_start: "S", p_mi: "M"}) if s is not None else None
-        le = linear_form(e, {p_end: "E", p_mi: "M"}) if e is not None else None
-        # the widening only happens on the branch max_interval is not None; both defs reach
-        ds = _all_forms(flow, c.args[0], c, {p_start: "S", p_mi: "M"})
-        de = _all_forms(flow, c.args[1], c, {p_end: "E", p_mi: "M"})
-        ok = {"S": 1} in ds and {"S": 1, "M": -1} in ds and len(ds) == 2 \
-            and {"E": 1} in de and {"E": 1, "M": 1} in de and len(de) == 2
-        # the widened definitions lie under `max_interval is not None`
-        for nm in (c.args[0], c.args[1]):
-            if isinstance(nm, ast.Name):
-                for d_ in flow.defs(nm.id, c):
-                    if isinstance(d_, ast.Assign):
-                        g_ = parent(d_)
-                        if not (isinstance(g_, ast.If) and norm(g_.test) == "%s is not None" % p_mi and d_ in g_.body):
-                            ok = False
-        ctx.ob("FileSet.match.period[%s]" % who, ok, "find(%s, %s)" % (ds, de),
-               "find(start - max_interval, end + max_interval) when max_interval is given, else find(start, end)",
-               node=c, func=f)
+        bound = {}
+        for i_, a_ in enumerate(c.args[:2]):
+            bound[("start", "end")[i_]] = a_
+        for k_ in c.keywords:
+            if k_.arg in ("start", "end"):
+                bound[k_.arg] = k_.value
+        if set(bound) != {"start", "end"}:
+            raise AnalysisError("match(): %s.find(...) is not handed a period" % who)
+        plain = [str(norm(flow.resolve_under(bound[k_], absent, at=c, stop=(p_mi,)))) for k_ in ("start", "end")]
+        wide = [flow.resolve_under(bound[k_], given, at=c, stop=(p_mi,)) for k_ in ("start", "end")]
+        wit = None
+        ncases = 0
+        for S, E, M in itertools.product([None] + list(range(N + 1)), [None] + list(range(N + 1)), range(N + 3)):
+            S0, E0 = (0 if S is None else S), (N if E is None else E)
+            if S0 > E0:
+                continue
+            ncases += 1
+            env = {"datetime.min": DT(0), "datetime.max": DT(N), p_start: None if S is None else DT(S), p_end: None if E is None else DT(E), p_mi: M}
+            try:
+                got = [Interp(env, {"to_datetime": _to_dt}).ev(w_) for w_ in wide]
+                got = [g_.v if isinstance(g_, DT) else g_ for g_ in got]
+            except _Crash as e_:
+                got = str(e_)
+            except TypeError as e_:
+                got = "TypeError: %s" % e_
+            if got != [max(S0 - M, 0), min(E0 + M, N)]:
+                wit = {"start": S, "end": E, "max_interval": M, "time axis": [0, N], "find() period": got, "expected": [max(S0 - M, 0), min(E0 + M, N)]}
+                break
+        ctx.models.append({"rule": "C03.match", "cases": ncases, "domain": "bounded time axis [0, %d], start/end None or on the axis, max_interval 0..%d" % (N, N + 2), "exhaustive": True})
+        ctx.ob("FileSet.match.period[%s]" % who, wit is None and plain == [p_start, p_end],
+               "with max_interval: find(%s, %s); without: find(%s, %s)" % (norm(wide[0]), norm(wide[1]), plain[0], plain[1]),
+               "find(start - max_interval, end + max_interval) clipped to the time axis (None = its ends) when max_interval is given, else find(start, end)",
+               node=c, func=f, witness=wit)
 
     # max_interval is normalised to a timedelta before it is used (numbers are seconds)
     conv = [st for st in flow.stmts if isinstance(st, ast.Assign) and norm(st.targets[0]) == p_mi and calls_in(st.value, "to_timedelta")]
